@@ -653,7 +653,7 @@ def vectors(prog, domains=None):
         n = 1
         for k in u:
             n *= len(domains[k])
-        if n > 100:
+        if n > 100 or len(prog) >= 3:
             domains = SMALL_DOMAINS
 
     base = [domains[k][1] if k != 4 else 1 for k in range(NIN)]
@@ -899,7 +899,10 @@ FIRST = [("mkarr", 0, 1, 0), ("mkarr", 3, 0, 1), ("mkarr", 3, 1, 3), ("mkarr", 2
          ("floordiv", 0, 1), ("neg", 3), ("mixbits", 2), ("pack_bi", 2, 0), ("lshift_s", 0, 4), ("ign_on", 0)]
 
 
-def enumerate_from(first, depth, next_ops, cross_only=True):
+THIRD_OPS = ["get", "set", "lazy_get", "ite", "lt", "frombits", "unpack_bi", "assert_eq", "add", "mul"]
+
+
+def enumerate_from(first, depth, next_ops, cross_only=True, third_ops=None):
     """All well-typed programs of 2..depth statements that start with the statement `first` (breadth-first, on the real code)."""
     t = probe_types([first])
     if t is None:
@@ -911,7 +914,7 @@ def enumerate_from(first, depth, next_ops, cross_only=True):
         for prog, types in level:
             newest = len(types) - 1
             feats = {FEATURE[s[0]] for s in prog}
-            for op in next_ops:
+            for op in (next_ops if d == 2 else (third_ops or THIRD_OPS)):
                 if cross_only and d == 2 and FEATURE[op] in feats and op not in ("get", "set"):
                     continue
                 for combo in _arg_choices(op, types, newest):
@@ -1089,7 +1092,9 @@ KEEP = {
 _PROGRAM_CACHE = {}
 
 
-def programs(ctx, depth=2):
+def programs(ctx, depth=None):
+    if depth is None:
+        depth = 3 if ctx.thorough else 2      # thorough: a third statement from a core list (THIRD_OPS)
     key = (depth, ctx.thorough)
     if key not in _PROGRAM_CACHE:
         nops = len(NEXT_OPS) if ctx.thorough else 35
